@@ -38,4 +38,19 @@ theorem filterMap_ids_sublist (f : Id × V × S → Option (Hit S))
       rw [hf c h hc]
       exact ih.cons_cons _
 
+/-- the same for any candidate type with a key -/
+theorem filterMap_key_sublist {α : Type} (key : α → Id) (f : α → Option (Hit S))
+    (hf : ∀ c h, f c = some h → h.id = key c) (l : List α) :
+    ((l.filterMap f).map (·.id)).Sublist (l.map key) := by
+  induction l with
+  | nil => simp
+  | cons c t ih =>
+    simp only [List.filterMap_cons, List.map_cons]
+    cases hc : f c with
+    | none => exact ih.cons _
+    | some h =>
+      simp only [List.map_cons]
+      rw [hf c h hc]
+      exact ih.cons_cons _
+
 end Comet.Pipeline
